@@ -1,5 +1,6 @@
 from pyg_base._types import is_iterable
 from pyg_base._loop import len0
+import numpy as np
 
 __all__ = ['zipper', 'lens']
 
@@ -35,6 +36,10 @@ def lens(*values):
         raise ValueError('found multiple lengths %s '%lens)
     return list(lens)[0] if lens else 1
 
+def _is_seq(value):
+    """an iterable that zipper zips: not a string, nor a 0-dimensional array - that is a single value, it has no length and cannot be iterated over"""
+    return is_iterable(value) and not (isinstance(value, np.ndarray) and len(value.shape) == 0)
+
 def zipper(*values):
     """
     a safer version of zip
@@ -46,6 +51,7 @@ def zipper(*values):
     >>> assert list(zipper([1,2,3], [4,5,6], [7])) ==  [(1, 4, 7), (2, 5, 7), (3, 6, 7)]
     >>> assert list(zipper([1,2,3], [4,5,6], None)) ==  [(1, 4, None), (2, 5, None), (3, 6, None)]
     >>> assert list(zipper((1,2,3), np.array([4,5,6]), None)) ==  [(1, 4, None), (2, 5, None), (3, 6, None)]
+    >>> assert list(zipper([1,2], np.array(5))) ==  [(1, 5), (2, 5)]
     
     :Examples: zipper rejects multi-length lists
     ---------------
@@ -64,9 +70,9 @@ def zipper(*values):
     zipped values
 
     """
-    values = [list(value) if isinstance(value, zip) else value if is_iterable(value) else [value] for value in values]
+    values = [list(value) if isinstance(value, zip) else value if _is_seq(value) else [value] for value in values]
     n = lens(*values)
     if n>1:
-        values = [list(value) * n if is_iterable(value) and len(value) == 1 else value for value in values]
+        values = [list(value) * n if _is_seq(value) and len(value) == 1 else value for value in values]
     return zip(*values)
 
